@@ -246,7 +246,7 @@ func RunFaultCase(rt *rapid.T, env *Env, prop *SimProp, faults func(w *World) []
 			cj()
 		}
 	}
-	if prop.ID != "C11" {
+	if prop.ID != "C11" && prop.ID != "C20" {
 		return
 	}
 	// race variants: the connection closes at the same moment as a service answer
@@ -264,6 +264,17 @@ func RunFaultCase(rt *rapid.T, env *Env, prop *SimProp, faults func(w *World) []
 			if len(fault) != 1 {
 				continue
 			}
+			if prop.ID == "C20" {
+				// Stop or the loss of the messaging connection together with the answer
+				// to a call or auth request: the answer's handling lands while the
+				// connections are being closed
+				if base[k].K != "ans" || !(strings.HasPrefix(base[k].S, "call.") || strings.HasPrefix(base[k].S, "auth.")) {
+					continue
+				}
+				if fault[0].K != "stop" && fault[0].K != "lose" || fault[0].O != "" || fault[0].S != "" {
+					continue
+				}
+			}
 			script := append([]Op(nil), base[:k]...)
 			par := []Op{fault[0], base[k]}
 			if base[k].K == "tokreset" {
@@ -275,6 +286,9 @@ func RunFaultCase(rt *rapid.T, env *Env, prop *SimProp, faults func(w *World) []
 			}
 			script = append(script, Op{K: "par", Par: par})
 			script = append(script, base[k+1:]...)
+			if prop.ID == "C20" {
+				script = faultVariant(script, len(script), nil, post)
+			}
 			vw, err := NewWorld(cfg)
 			if err != nil {
 				env.Inconclusive("NewWorld: " + err.Error())
@@ -284,6 +298,10 @@ func RunFaultCase(rt *rapid.T, env *Env, prop *SimProp, faults func(w *World) []
 			cj := openJournal(env, prop, p, cfg, vw)
 			vw.Settle()
 			for _, op := range script {
+				if op.K == "drain" {
+					answerAllOK(vw)
+					continue
+				}
 				vw.Exec(op)
 			}
 			cj()
@@ -376,6 +394,15 @@ func (m *MonC20) OnStepEnd(w *World, step int) {
 		return
 	}
 	op := w.Script[step]
+	if op.K == "par" {
+		// a fault released together with an answer counts as the fault
+		for _, p := range op.Par {
+			if p.K == "stop" || p.K == "lose" {
+				op = p
+				break
+			}
+		}
+	}
 	if m.faults == 0 && op.K != "stop" && op.K != "lose" && op.K != "restart" {
 		// remember whether work is outstanding, for the step at which the fault strikes
 		m.pendingAtFault = w.mq.PendingCount() > 0
